@@ -34,7 +34,7 @@ ASSUMPTIONS = ["a torn last line is dropped by any JSONL reader and equals the s
                "the empty prefix (no run known) is skipped - the statement does not define it",
                "lists in verdicts are compared as sets where the model documents no order"]
 REQUIRED_PROBES = ["launch_trace", "failing_run_trace", "directory_mode_multi_file", "prefix_without_pipeline_end", "subset_without_pipeline_start",
-                   "two_attempts_sharing_a_launch_id", "ingest_one_by_one", "ingest_many_list", "ingest_many_lazy_stream", "ingest_many_two_lazy_batches"]
+                   "two_attempts_sharing_a_launch_id", "ingest_one_by_one", "ingest_many_list", "ingest_many_lazy_stream", "ingest_many_two_lazy_batches", "launch_and_standalone_run_in_one_aggregator", "other_aggregator_saw_full_trace_first"]
 CONFIG = {
     "quick": {"runs": 2000, "budget_s": 240, "timeout_s": 120},
     "thorough": {"runs": 50000, "budget_s": 1500, "timeout_s": 180},
@@ -62,6 +62,7 @@ def generate(rng: random.Random, tier: str, seed: int) -> dict:
         # keys supplied by the run space are removed from --context
         sc["attempt"] = rng.choice([1, 1, 2, 3])
         sc["retry"] = rng.random() < 0.35        # a second launch with the SAME launch id and the next attempt number
+        sc["standalone_too"] = rng.random() < 0.35   # the same aggregator also sees a standalone run (its own file, no launch keys)
         if rng.random() < 0.5:
             sc["faults"] = [{"site": "executor_pre", "kind": "exception", "node": rng.randrange(nn), "run": rng.randrange(3)}]
     return sc
@@ -85,7 +86,7 @@ def produce(sc: dict, w) -> list[dict]:
         argv += ["--run-space-launch-id", "launch-shared-by-attempts"]
     for k, v in base["context"].items():
         if k not in rs_keys:
-            argv += ["--context", f"{k}={json.dumps(v)}"]
+            argv += ["--context", f"{k}={harness.cli_value(v)}"]
     first = len(w.emissions)
     harness.run_cli(argv)
     if sc.get("retry"):
@@ -95,6 +96,9 @@ def produce(sc: dict, w) -> list[dict]:
         argv2[argv2.index("--run-space-attempt") + 1] = str(sc.get("attempt", 1) + 1)
         w.set_faults([])
         harness.run_cli(argv2)
+    if sc.get("standalone_too"):
+        w.set_faults([])
+        harness.run_scenario(dict(base, faults=[]), w, trace_mode="file", detail=sc["detail"], name="solo")
     recs, _ = harness.parse_lines(w.emissions[first:])
     return recs
 
@@ -243,6 +247,8 @@ def execute(sc: dict, seed: int) -> dict:
         files = {r["_file"] for r in recs}
         if sc["kind"] == "launch":
             stats["probe.launch_trace"] = 1
+            if sc.get("standalone_too"):
+                stats["probe.launch_and_standalone_run_in_one_aggregator"] = 1
             if sc.get("retry"):
                 stats["probe.two_attempts_sharing_a_launch_id"] = 1
         if sc.get("faults") and any(f for f in w.faults_fired):
@@ -254,7 +260,15 @@ def execute(sc: dict, seed: int) -> dict:
         nontrivial = []
         stats["crash_points"] = len(recs)
         lo = sc.get("only_prefix")
-        for n in range(1, len(recs) + 1):
+        # the verdict of one aggregator does not depend on what OTHER aggregator objects of the process have seen: in a seeded
+        # half of the evaluations the complete trace is aggregated first (the normal history: a full report, then a fresh
+        # aggregator for a truncated copy), and crash points are visited in a seeded order instead of shortest first
+        order_n = list(range(1, len(recs) + 1))
+        if sc["order_seed"] % 2:
+            verdicts(list(recs))
+            random.Random(sc["order_seed"]).shuffle(order_n)
+            stats["probe.other_aggregator_saw_full_trace_first"] = 1
+        for n in order_n:
             if lo is not None and n != lo:
                 continue
             prefix = recs[:n]
